@@ -58,7 +58,7 @@ func (m *Model) RunOpTable(s *Sink, rule string) {
 	var typed []*ssa.Call
 	for _, b := range disp.Blocks {
 		for _, in := range b.Instrs {
-			if c, ok := in.(*ssa.Call); ok && c.Call.StaticCallee() != nil && inPkg(c.Call.StaticCallee(), "evaluator") && strings.HasSuffix(c.Call.StaticCallee().Name(), "InfixExp") {
+			if c, ok := in.(*ssa.Call); ok && c.Call.StaticCallee() != nil && inPkg(c.Call.StaticCallee(), "evaluator") && strings.HasSuffix(canonFnName(c.Call.StaticCallee()), "InfixExp") {
 				typed = append(typed, c)
 			}
 		}
@@ -154,7 +154,7 @@ func (m *Model) RunOpTable(s *Sink, rule string) {
 						}
 					}
 				}
-				if c, ok := in.(*ssa.Call); ok && sym == "--" && c.Call.StaticCallee() != nil && c.Call.StaticCallee().Name() == "SubtractFromFloat" {
+				if c, ok := in.(*ssa.Call); ok && sym == "--" && c.Call.StaticCallee() != nil && canonFnName(c.Call.StaticCallee()) == "SubtractFromFloat" {
 					if k, ok := c.Call.Args[1].(*ssa.Const); ok && k.Int64() == 1 {
 						got["--float"] = true // digit-preserving helper, its error must be consumed (R-ERRDROP)
 					}
@@ -280,7 +280,7 @@ func (m *Model) runSingletonsAndPurity(s *Sink, rule string) {
 				}
 				for _, v := range []ssa.Value{bo.X, bo.Y} {
 					if ld, ok := stripIface(v).(*ssa.UnOp); ok {
-						if g, ok := ld.X.(*ssa.Global); ok && (g.Name() == "TRUE" || g.Name() == "FALSE" || g.Name() == "NIL") {
+						if g, ok := ld.X.(*ssa.Global); ok && (canonGlobalName(g) == "TRUE" || canonGlobalName(g) == "FALSE" || canonGlobalName(g) == "NIL") {
 							nCmp++
 							s.Violation(rule, fmt.Sprintf("%s|identity comparison with %s", fnKey(fn), g.Name()), m.InstrPos(bo),
 								"%s compares an object by identity with the %s singleton: booleans and nil produced from the data map, by built-ins or by custom functions are different objects with the same value, so the comparison fails for them (e.g. `{{ !flag }}` with flag from the data)", fnKey(fn), g.Name())
